@@ -47,16 +47,19 @@ type Record struct {
 	Stuck string          `json:"stuck"`
 }
 
-func inputFor(kind string) string {
+func inputFor(kind string) string { return inputsFor(kind)[0] }
+
+// inputsFor lists the inputs goroutines of a kind parse (the first one in schedule mode, all of them in race mode).
+func inputsFor(kind string) []string {
 	switch kind {
 	case "alerts-complex", "alerts-none":
-		return "elev3"
+		return []string{"elev3", "elev", "fallback3"}
 	case "nycttrips":
-		return "nyct"
+		return []string{"nyct", "veh3"}
 	case "noext-ny":
-		return "dates"
+		return []string{"dates", "fallback3", "conflict"}
 	}
-	return "plain"
+	return []string{"veh3", "fallback3", "plain", "dates"}
 }
 
 // objects builds the options of the goroutines according to the topology.
@@ -105,6 +108,24 @@ func parseSafely(b []byte, o *gtfs.ParseRealtimeOptions) (res, errs string, out 
 	r, err := gtfs.ParseRealtime(b, o)
 	res, errs = digestOf(r, err)
 	return res, errs, r
+}
+
+// references: every input x kind parsed once, sequentially, before any concurrent run (what "running alone" returns)
+var references = map[string][2]string{}
+
+// InitReferences must be called before anything else runs.
+func InitReferences() {
+	for _, k := range []string{"noext-utc", "noext-ny", "nycttrips", "alerts-complex", "alerts-none"} {
+		for _, name := range inputsFor(k) {
+			res, errs, _ := parseSafely(append([]byte(nil), sess.Inputs[name]...), sess.NewObj(k).RT)
+			references[name+"|"+k] = [2]string{res, errs}
+		}
+	}
+}
+
+func Reference(name, kind string) (string, string) {
+	r := references[name+"|"+kind]
+	return r[0], r[1]
 }
 
 func goid() int {
@@ -202,8 +223,7 @@ func RunSchedule(id string, c Case) Record {
 	}
 	for i := 0; i < n; i++ {
 		results[i].Proc = i + 1
-		fresh := sess.NewObj(c.Topo[i].Kind)
-		results[i].Alone, results[i].AloneErr, _ = parseSafely(append([]byte(nil), sess.Inputs[inputFor(c.Topo[i].Kind)]...), fresh.RT)
+		results[i].Alone, results[i].AloneErr = Reference(inputFor(c.Topo[i].Kind), c.Topo[i].Kind)
 		rec.Runs = append(rec.Runs, results[i])
 	}
 	return rec
@@ -221,6 +241,7 @@ func RunRace(id string, c Case, g, reps int) Record {
 		results := make([]RunRec, total)
 		parsed := make([]*gtfs.Realtime, total)
 		statics := make([]*gtfs.Static, total)
+		extra := make([]string, total)
 		staticBuf := append([]byte(nil), sess.Inputs["static-a"]...)
 		var wg sync.WaitGroup
 		start := make(chan struct{})
@@ -232,7 +253,12 @@ func RunRace(id string, c Case, g, reps int) Record {
 				<-start
 				i := w % n
 				results[w].Proc = i + 1
-				results[w].Res, results[w].Err, parsed[w] = parseSafely(inputs[i], opts[i])
+				in := inputs[i]
+				if alt := inputsFor(c.Topo[i].Kind); w/n > 0 { // further goroutines of a member parse further inputs (own copies)
+					in = append([]byte(nil), sess.Inputs[alt[(w/n)%len(alt)]]...)
+					extra[w] = alt[(w/n)%len(alt)]
+				}
+				results[w].Res, results[w].Err, parsed[w] = parseSafely(in, opts[i])
 				func() {
 					defer func() { recover() }()
 					statics[w], _ = gtfs.ParseStatic(staticBuf, gtfs.ParseStaticOptions{InheritWheelchairBoarding: w%2 == 0})
@@ -274,8 +300,11 @@ func RunRace(id string, c Case, g, reps int) Record {
 		wg2.Wait()
 		if rep == 0 {
 			for w := 0; w < total; w++ {
-				fresh := sess.NewObj(c.Topo[w%n].Kind)
-				results[w].Alone, results[w].AloneErr, _ = parseSafely(append([]byte(nil), sess.Inputs[inputFor(c.Topo[w%n].Kind)]...), fresh.RT)
+				name := inputFor(c.Topo[w%n].Kind)
+				if extra[w] != "" {
+					name = extra[w]
+				}
+				results[w].Alone, results[w].AloneErr = Reference(name, c.Topo[w%n].Kind)
 				rec.Runs = append(rec.Runs, results[w])
 			}
 		} else {
